@@ -15,7 +15,7 @@ ASSUMPTIONS = ["exact reals; catalogue matrices; warm start = any (feasible) w w
 BOUNDS = dict(quick="n<=3, p<=2; budgets (1,1); grid length 2", thorough="more compositions, budgets (2,1)")
 
 
-def u_path(h, penalty, X, fit_intercept, with_init, sparse=False):
+def u_path(h, penalty, X, fit_intercept, with_init, sparse=False, epochs=0):
     """real AndersonCD.path on a 2-point grid with no order assumed; per grid point: the certificate holds for
     *its* alpha, and coefs[:, t] are consistent with what the solver was asked"""
     import skglm.solvers.anderson_cd as acd
@@ -35,7 +35,7 @@ def u_path(h, penalty, X, fit_intercept, with_init, sparse=False):
         w_init = h.vec('wi', nw)
         for j in range(p):
             h.assume(feasible(h, meta, w_init[j]))
-    solver = S.AndersonCD(max_iter=1, max_epochs=0, p0=1, tol=tol, fit_intercept=fit_intercept)
+    solver = S.AndersonCD(max_iter=1, max_epochs=epochs, p0=1 if epochs == 0 else p, tol=tol, fit_intercept=fit_intercept)
     Xd = h.const(Xc)
     Xarg = h.csc(Xd) if sparse else Xd
     old = acd.check_array
@@ -67,11 +67,129 @@ def u_path(h, penalty, X, fit_intercept, with_init, sparse=False):
             h.ensure('certificate-for-alpha[%d]' % t, ok)
         else:
             h.ensure('certificate-for-alpha[%d]' % t, True)
+    if epochs:
+        return          # (the moved grid points are judged by their certificates above)
     # with no epoch granted, grid point 0 returns its start: the user's w_init (or zeros)
     for k in range(nw):
         start = w_init[k] if with_init else 0.0
         h.ensure('start-honoured[%d]' % k, h.eq(coefs[k, 0], start))
         h.ensure('grid-point-1-starts-from-0[%d]' % k, h.eq(coefs[k, 1], coefs[k, 0]))
+
+
+def u_mt_path(h, fit_intercept, with_init, sparse=False):
+    """real MultiTaskBCD.path (one task) on a 2-point grid, optionally from a user W_init (documented shape
+    (n_tasks, n_features [+1])): no exception, each grid point certified for its own alpha, the start is honoured"""
+    import skglm.solvers.multitask_bcd as mtb
+    import skglm.solvers as S
+    Pm, Dm = ST.P(), ST.D()
+    Xc = X_of('corr32')
+    n, p = Xc.shape
+    tol = h.real('tol')
+    a1, a2 = h.real('alpha1'), h.real('alpha2')
+    h.assume(tol > 0, a1 > 0, a2 > 0)
+    Y = h.mat('Y', n, 1)
+    pen = h.penalty(Pm.L2_1, alpha=a1)
+    df = h.datafit(Dm.QuadraticMultiTask)
+    nw = p + (1 if fit_intercept else 0)
+    W_init = h.mat('Wi', 1, nw) if with_init else None
+    Xd = h.const(Xc)
+    Xa = h.csc(Xd) if sparse else Xd
+    sol = S.MultiTaskBCD(max_iter=1, max_epochs=0, p0=1, tol=tol, fit_intercept=fit_intercept, use_acc=False)
+    saved = []
+    if h.mode == 'sym':
+        ident = lambda a, *args, **kw: a
+        saved.append((mtb, 'check_array', mtb.check_array))
+        mtb.check_array = ident
+    try:
+        res = sol.path(Xa, Y, df, pen, alphas=h.arr([a1, a2]) if h.mode == 'sym' else np.array([float(a1), float(a2)]),
+                       W_init=W_init)
+    finally:
+        for mod, name, val in saved:
+            setattr(mod, name, val)
+    _, coefs, stop_crits = res[:3]
+    h.ensure('coefs-shape', tuple(coefs.shape) == (1, nw, 2))
+    for t, al in enumerate((a1, a2)):
+        W = [[coefs[0, k, t]] for k in range(nw)]
+        Wm = h.arr(W) if h.mode == 'sym' else np.array(W, dtype=float)
+        for k in range(nw):
+            h.observe('coef%d_%d' % (k, t), coefs[0, k, t])
+        stopped = h.le(stop_crits[t], tol)
+        if (h.mode == 'sym' and bool(stopped)) or (h.mode != 'sym' and stopped.strict):
+            ok = h.true()
+            for tm in ST.mt1_violation_terms(h, Xc, Y, Wm, al, fit_intercept):
+                ok = h.and_(ok, h.le(tm, tol))
+            h.ensure('certificate-for-alpha[%d]' % t, ok)
+        else:
+            h.ensure('certificate-for-alpha[%d]' % t, True)
+    for k in range(nw):
+        start = W_init[0, k] if with_init else 0.0
+        h.ensure('start-honoured[%d]' % k, h.eq(coefs[0, k, 0], start))
+
+
+def u_sqrt_path(h, order):
+    """SqrtLasso.path on a 3-point grid given in any order: BaseSolver.solve is replaced by a contract stub that behaves like
+    the real solvers do -- it UPDATES the caller's w_init IN PLACE and returns it (obligation 'returns-caller-w' of the D
+    units) -- with arbitrary symbolic results.  After the whole path, row t of coefs must be what the solver returned for
+    the t-th largest alpha (no later solve may overwrite it), every solve is asked its own alpha, and the start of solve t
+    is consistent with the Xw_init it receives."""
+    from skglm.experimental.sqrt_lasso import SqrtLasso
+    from checks import estim as ES
+    n, p = 3, 2
+    X = h.mat('X', n, p)
+    y = h.vec('y', n)
+    a = [h.real('alpha%d' % k) for k in range(3)]
+    # a strictly ordered grid handed over in the given order (np.sort on symbolic values would fork over all orders)
+    h.assume(a[0] > a[1], a[1] > a[2], a[2] > 0)
+    grid = [a[k] for k in order]
+    est = SqrtLasso(alpha=1.0, tol=1e-6, max_iter=3)
+    rets, asked = [], []
+
+    def result(k, call):
+        asked.append(call['penalty'].alpha)
+        wi = call['w_init']
+        ok = h.true()
+        for i in range(n):
+            ok = h.and_(ok, h.eq(call['Xw_init'][i], sum(X[i, j] * wi[j] for j in range(p))))
+        h.ensure('start-buffer-consistent[%d]' % k, ok)
+        vals = [h.real('c%d_%d' % (k, j)) for j in range(p)]
+        for j in range(p):
+            wi[j] = vals[j]                 # in-place update of the caller's array, as the real solvers do
+        rets.append(vals)
+        return wi, (h.arr([0.0]) if h.mode == 'sym' else np.array([0.0])), 0.0
+    import skglm.experimental.sqrt_lasso as SL
+    old_sort = SL.np.sort if h.mode == 'sym' else None
+    with ES.sklearn_stubs(h):
+        with ES.intercept_solve(h, result) as cap:
+            if h.mode == 'sym':
+                # symbolic grid: the ordering is fixed by the assumptions above, sort accordingly (decreasing after [::-1])
+                SL.np = _SortShim(SL.np, a)
+            try:
+                alphas, coefs = est.path(X, y, alphas=h.arr(grid) if h.mode == 'sym' else np.array([float(v) for v in grid]))[:2]
+            finally:
+                if h.mode == 'sym':
+                    SL.np = SL.np._inner
+    h.ensure('one-solve-per-alpha', len(cap.calls) == 3)
+    for t in range(min(3, len(rets))):
+        h.ensure('solve-%d-asked-its-alpha' % t, h.eq(asked[t], a[t]))
+        row = h.true()
+        for j in range(p):
+            row = h.and_(row, h.eq(coefs[t, j], rets[t][j]))
+        h.ensure('coefs-row-%d-is-the-solution-for-alpha-%d' % (t, t), row)
+    h.observe('x', rets[0][0])
+
+
+class _SortShim:
+    """np proxy for the path's `np.sort(alphas)[::-1]` on a symbolic grid whose order is known from the assumptions"""
+
+    def __init__(self, inner, ordered_desc):
+        self._inner, self._desc = inner, ordered_desc
+
+    def __getattr__(self, k):
+        return getattr(self._inner, k)
+
+    def sort(self, arr, *a, **k):
+        out = self._inner.array(list(self._desc)[::-1], dtype=object)
+        return out
 
 
 def u_warm_refit(h, kind, fi1, fi2):
@@ -145,6 +263,11 @@ def units(tier):
         for g in range(len(DR.GROUP_LAYOUTS[lay])):
             us.append(Unit('C05/S/group_step[QuadraticGroup,layout=%s,X=%s,g=%d]' % (lay, X, g), ST.u_group_step,
                            dict(datafit='QuadraticGroup', layout=lay, X=X, g=g), wall_s=90, timeout_ms=8000))
+    # the CSC group epoch keeps Xw in sync exactly as the dense one does (also when a block is thresholded to zero)
+    for lay, X in (('single', 'corr32'), ('rev', 'gen32')) + ((('pair', 'gen32'),) if not q else ()):
+        for g in range(len(DR.GROUP_LAYOUTS[lay])):
+            us.append(Unit('C05/S/group_step_csc[QuadraticGroup,layout=%s,X=%s,g=%d]' % (lay, X, g), ST.u_group_step,
+                           dict(datafit='QuadraticGroup', layout=lay, X=X, g=g, sparse_epoch=True), wall_s=90, timeout_ms=8000))
     for X in ('corr32', 'gen32'):
         for j in (0, 1):
             us.append(Unit('C05/S/multitask_step[X=%s,j=%d]' % (X, j), ST.u_multitask_step, dict(X=X, j=j, T=2), wall_s=90))
@@ -190,6 +313,19 @@ def units(tier):
             continue
         us.append(Unit('C05/D/path[%s,intercept=%s,w_init=%s,sparse=%s]' % (pen, fi, wi, sp), u_path,
                        dict(penalty=pen, X='corr32', fit_intercept=fi, with_init=wi, sparse=sp), wall_s=120, timeout_ms=8000))
+    # a path whose grid points MOVE (one epoch each, cold start): grid point 1 is warm-started from point 0 through path()'s
+    # own (w, Xw) pair, which the solver must have kept in sync
+    for fi, sp in ((False, False), (False, True)) if q else ((False, False), (False, True), (True, False), (True, True)):
+        us.append(Unit('C05/D/moving-path[L1,intercept=%s,sparse=%s]' % (fi, sp), u_path,
+                       dict(penalty='L1', X='corr32', fit_intercept=fi, with_init=False, sparse=sp, epochs=1), wall_s=120,
+                       timeout_ms=8000))
+    for fi, wi, sp in itertools.product((False, True), (False, True), (False, True)):
+        if q and sp and not wi:
+            continue
+        us.append(Unit('C05/D/MultiTaskBCD.path[intercept=%s,W_init=%s,sparse=%s]' % (fi, wi, sp), u_mt_path,
+                       dict(fit_intercept=fi, with_init=wi, sparse=sp), wall_s=90, timeout_ms=8000))
+    for order in ((0, 1, 2), (2, 1, 0), (1, 2, 0)):
+        us.append(Unit('C05/E/SqrtLasso.path[grid order=%s]' % (order,), u_sqrt_path, dict(order=order), wall_s=60))
     for X, fi in (('corr32', False), ('corr32', True), ('gen32', True)):
         us.append(Unit('C05/S/pn_linesearch[X=%s,intercept=%s]' % (X, fi), ST.u_pn_linesearch, dict(X=X, fit_intercept=fi),
                        wall_s=120, timeout_ms=8000, patched=True))
